@@ -29,6 +29,36 @@ func floatBits(c *ssa.Const, w int) string {
 	return bvLit(bigFromU(math.Float64bits(f)), 64)
 }
 
+// Floating-point values are carried as their IEEE-754 bit patterns (bit-vectors). Comparisons and
+// conversions from and to integers are exact (SMT-LIB FloatingPoint theory over the reinterpreted bits);
+// arithmetic stays uninterpreted.
+func toFP(bits string, w int) string {
+	if w == 32 {
+		return "((_ to_fp 8 24) " + bits + ")"
+	}
+	return "((_ to_fp 11 53) " + bits + ")"
+}
+
+// fpCompare: the Go comparison a op b on floats of width w (false whenever an operand is NaN, except !=).
+func fpCompare(op token.Token, a, b string, w int) string {
+	x, y := toFP(a, w), toFP(b, w)
+	switch op {
+	case token.LSS:
+		return app("fp.lt", x, y)
+	case token.LEQ:
+		return app("fp.leq", x, y)
+	case token.GTR:
+		return app("fp.gt", x, y)
+	case token.GEQ:
+		return app("fp.geq", x, y)
+	case token.EQL:
+		return app("fp.eq", x, y)
+	case token.NEQ:
+		return not(app("fp.eq", x, y))
+	}
+	return ""
+}
+
 func (tr *Tr) curA(fr *frame) string { return tr.C.hget(fr.heap, tr.C.allocKey()) }
 
 // allocate a fresh reference
@@ -192,6 +222,10 @@ func (tr *Tr) instr(fr *frame, ins ssa.Instruction) {
 			C.declare("bytes2str", "(declare-fun bytes2str ((Array "+bv64+" (_ BitVec 8)) "+bv64+" "+bv64+") Str)")
 			arr := sel(C.hget(fr.heap, C.elemKey("(_ BitVec 8)")), app("s.arr", v.T))
 			s := app("bytes2str", arr, app("s.off", v.T), app("s.len", v.T))
+			if tr.vc.Contract != nil && tr.vc.Contract.StrBytes {
+				// Go semantics of string(b): character i is byte i of b (only with the `strbytes` directive)
+				C.declare("bytes2str_ax", "(assert (forall ((a (Array "+bv64+" (_ BitVec 8))) (o "+bv64+") (n "+bv64+") (i "+bv64+")) (! (=> (and (bvsle "+bvI(0, 64)+" i) (bvslt i n)) (= (sat (bytes2str a o n) i) (select a (bvadd o i)))) :pattern ((sat (bytes2str a o n) i)))))")
+			}
 			set(x, s)
 			tr.assume(fr.curReach, eq(app("slen", fr.vals[x].T), app("s.len", v.T)))
 			tr.allocRequest(fr, app("s.len", v.T), x.Pos(), "string(bytes)")
@@ -201,6 +235,10 @@ func (tr *Tr) instr(fr *frame, ins ssa.Instruction) {
 			set(x, app("mkslice", ite(eq(n, bvI(0, 64)), ref, ref), bvI(0, 64), n, n))
 			// contents: byte i equals sat(s, i) (stated pointwise through an uninterpreted array)
 			C.declare("str2bytes", "(declare-fun str2bytes (Str) (Array "+bv64+" (_ BitVec 8)))")
+			if tr.vc.Contract != nil && tr.vc.Contract.StrBytes {
+				// Go semantics of []byte(s): byte i is character i of s (only with the `strbytes` directive)
+				C.declare("str2bytes_ax", "(assert (forall ((s Str) (i "+bv64+")) (! (= (select (str2bytes s) i) (sat s i)) :pattern ((select (str2bytes s) i)))))")
+			}
 			ek := C.elemKey("(_ BitVec 8)")
 			fr.heap.m[ek] = tr.define(C.heapSort[ek], sto(C.hget(fr.heap, ek), ref, app("str2bytes", v.T)), ek)
 		default:
@@ -527,7 +565,7 @@ func (tr *Tr) binop(fr *frame, x *ssa.BinOp, set func(ssa.Value, string)) {
 		case bi && !ai:
 			e = eq(tr.makeIface(Val{T: a.T, Ty: at}), b.T)
 		case isFloat(at):
-			e = tr.uninterp("feq", tBool, a, b)
+			e = fpCompare(token.EQL, a.T, b.T, intWidth(at))
 		default:
 			if _, ok := at.Underlying().(*types.Slice); ok {
 				// only comparison against nil is legal
@@ -558,6 +596,10 @@ func (tr *Tr) binop(fr *frame, x *ssa.BinOp, set func(ssa.Value, string)) {
 		return
 	}
 	if isFloat(t) {
+		if c := fpCompare(x.Op, a.T, b.T, intWidth(t)); c != "" {
+			set(x, c)
+			return
+		}
 		rt := x.Type()
 		set(x, tr.uninterp("f"+opName(x.Op), rt, a, b))
 		return
